@@ -414,8 +414,52 @@ class CTranslator:
                 a = self._block(rest, env_t, conds + [(ctext, True)], out)
                 b = self._block(rest, env_f, conds + [(ctext, False)], out)
                 return a and b
+            if k == "ForStmt":
+                trip = self._const_trip(s)
+                if trip is None:
+                    raise AnalysisError(f"{self.where}: C loop without literal bounds is outside the straight-line fragment")
+                var, lo, hi = trip
+                body = cast.kids(s)[-1]
+                for v in range(lo, hi):
+                    env[var] = self.alg.const(v)
+                    if self._block([body], env, conds, out):
+                        return True
+                continue
             raise AnalysisError(f"{self.where}: C statement kind {k} is outside the straight-line fragment")
         return False
+
+    @staticmethod
+    def _const_trip(s):
+        """(var, lo, hi) of `for (v = <int>; v < <int>; v++)`, else None."""
+        ks = [x for x in s.get("inner", []) if isinstance(x, dict)]
+        real = [x for x in ks if x.get("kind")]
+        if len(real) < 4:
+            return None
+        init, cond, inc = real[0], real[-3], real[-2]
+        if not (init.get("kind") == "BinaryOperator" and init.get("opcode") == "="):
+            return None
+
+        def unwrap(e):
+            while e.get("kind") in ("ImplicitCastExpr", "ParenExpr", "CStyleCastExpr") and cast.kids(e):
+                e = cast.kids(e)[0]
+            return e
+
+        a, b = (unwrap(x) for x in cast.kids(init))
+        if a.get("kind") != "DeclRefExpr" or b.get("kind") != "IntegerLiteral":
+            return None
+        var, lo = a["referencedDecl"]["name"], int(b["value"])
+        cond = unwrap(cond)
+        if not (cond.get("kind") == "BinaryOperator" and cond.get("opcode") == "<"):
+            return None
+        ca, cb = (unwrap(x) for x in cast.kids(cond))
+        if ca.get("kind") != "DeclRefExpr" or ca["referencedDecl"]["name"] != var or cb.get("kind") != "IntegerLiteral":
+            return None
+        hi = int(cb["value"])
+        if inc.get("kind") != "UnaryOperator" or inc.get("opcode") != "++":
+            return None
+        if hi - lo > 32:
+            return None
+        return var, lo, hi
 
 
 # ---------------------------------------------------------------------------
